@@ -476,6 +476,17 @@ func (s *SMSValidator) validateCode(w http.ResponseWriter, r *http.Request, user
 
 		logger.Infof("user %s disabled sms 2fa", user.GetPID())
 	case PageSMSValidate:
+		// The account may have been locked (eg. by failed codes) or had its
+		// confirmation restarted since the password step: give the modules
+		// that guard logins their say before the session is issued.
+		r = r.WithContext(context.WithValue(r.Context(), authboss.CTXKeyUser, user))
+		handled, err := s.Authboss.Events.FireBefore(authboss.EventAuth, w, r)
+		if err != nil {
+			return err
+		} else if handled {
+			return nil
+		}
+
 		authboss.PutSession(w, authboss.SessionKey, user.GetPID())
 		authboss.PutSession(w, authboss.Session2FA, "sms")
 
@@ -485,8 +496,7 @@ func (s *SMSValidator) validateCode(w http.ResponseWriter, r *http.Request, user
 
 		logger.Infof("user %s sms 2fa success", user.GetPID())
 
-		r = r.WithContext(context.WithValue(r.Context(), authboss.CTXKeyUser, user))
-		handled, err := s.Authboss.Events.FireAfter(authboss.EventAuth, w, r)
+		handled, err = s.Authboss.Events.FireAfter(authboss.EventAuth, w, r)
 		if err != nil {
 			return err
 		} else if handled {
